@@ -14,6 +14,7 @@ RULE = ('Random operation sequences (10-200 requests) against the real Simulated
         ' Widened after seeded changes: base currency in {USD, GBP, EUR}; order ids repeated across portfolios (every delivered fill must belong to an order pending in THAT portfolio); very large positions; tiny (sub-cent) amounts.')
 RULE += ' Portfolio ids are created in a shuffled (non-alphabetical) order in half of the cases.'
 RULE += " 8% of the cases are an account with a single portfolio whose id is 'master' (the key under which the reports give their total)."
+RULE += " The caller keeps every object it was handed (Portfolio objects, the holdings mapping, Position objects, holdings reports) and checks at every later snapshot that they still describe the same account; its own copies (list_all_portfolios(), every second holdings report incl. the per-asset entries) are emptied. A subscription of exactly a negative balance's shortfall is generated when a portfolio is overdrawn; 4% of the time steps add 1-999 ns."
 ASSUMPTIONS = [
     'fills are taken as the Transaction delivered to Portfolio.transact_asset (price, signed quantity, commission); '
     'that these equal quote and fee model is C05',
